@@ -125,11 +125,13 @@ type interp struct {
 	ctxs    map[string]bool // names bound to the cancellable context
 	locals  map[string]ast.Expr
 	depth   int
+	searchObjs map[string]bool // locals aliasing the game's search object
+	bestLines  map[string]bool // locals holding a ready-made bestmove line
 }
 
 func (in *interp) str(n ast.Node) string { return nodeStr(in.p.fset, n) }
 
-var relevantAtoms = []string{".state.Set(", ".isWorking.", "searchCancel", ".Search(", "\"bestmove", "\"readyok", "context.With", "StartSearch(", "StopSearch(", "NewPosition(", "IsReady("}
+var relevantAtoms = []string{".state.Set(", ".isWorking.", "searchCancel", ".Search(", "context.With", "StartSearch(", "StopSearch(", "NewPosition(", "IsReady("}
 
 func (in *interp) relevantText(s string) bool {
 	for _, a := range relevantAtoms {
@@ -239,9 +241,12 @@ func (in *interp) callEvents(c *ast.CallExpr) ([]ev, bool) {
 			if a == "\"readyok\"" || a == "\"readyok\\n\"" {
 				return []ev{{kind: "printReady"}}, true
 			}
+			if in.bestLines[a] {
+				return []ev{{kind: "printBest"}}, true
+			}
 		}
 		return []ev{{kind: "print"}}, true
-	case strings.HasSuffix(fun, ".Search") && strings.Contains(fun, "search"):
+	case strings.HasSuffix(fun, ".Search") && (strings.Contains(fun, "search") || in.searchObjs[strings.TrimSuffix(fun, ".Search")]):
 		ok := len(c.Args) > 0 && in.ctxs[in.str(c.Args[0])]
 		arg := "ctx"
 		if !ok {
@@ -311,6 +316,22 @@ func (in *interp) walk(list []ast.Stmt, top bool) []ev {
 							out = append(out, evs...)
 							handled = true
 						}
+					}
+				}
+				if len(x.Lhs) == 1 {
+					// a local that holds the ready-made bestmove line (built by Sprintf or by a helper that does)
+					r := in.str(x.Rhs[0])
+					if c, ok := x.Rhs[0].(*ast.CallExpr); ok {
+						if fd := in.localCallee(c); fd != nil {
+							r = in.str(fd.Body)
+						}
+					}
+					if strings.Contains(r, "\"bestmove") {
+						in.bestLines[in.str(x.Lhs[0])] = true
+					}
+					if strings.HasSuffix(in.str(x.Rhs[0]), ".search") {
+						in.searchObjs[in.str(x.Lhs[0])] = true
+						handled = true
 					}
 				}
 				if !handled && len(x.Lhs) == 1 {
@@ -754,7 +775,8 @@ func (in *interp) table(f func(state string, searchNil bool) bool) string {
 }
 
 func newInterp(p *pkgSrc, states []string) *interp {
-	return &interp{p: p, states: states, cancels: map[string]bool{"g.searchCancel": true}, ctxs: map[string]bool{}, locals: map[string]ast.Expr{}}
+	return &interp{p: p, states: states, cancels: map[string]bool{"g.searchCancel": true}, ctxs: map[string]bool{}, locals: map[string]ast.Expr{},
+		searchObjs: map[string]bool{}, bestLines: map[string]bool{}}
 }
 
 func (in *interp) handler(name string) ([]ev, bool) {
@@ -765,6 +787,8 @@ func (in *interp) handler(name string) ([]ev, bool) {
 	in.cancels = map[string]bool{"g.searchCancel": true}
 	in.ctxs = map[string]bool{}
 	in.locals = map[string]ast.Expr{}
+	in.searchObjs = map[string]bool{}
+	in.bestLines = map[string]bool{}
 	return in.walk(fd.Body.List, true), true
 }
 
